@@ -383,7 +383,11 @@ impl<F: Field> Circuit<F> {
                     // A hint output in the `out` slot is a backward op: the hint value is given,
                     // so `b` is the witness this row solves for and takes the bus creator role
                     // (the hint output itself is still created via `out_is_creator`).
-                    let out_is_backward = out_already_defined || hint_output_wids.contains(&out.0);
+                    // A private input in the `out` slot is given too (`p - x` lowers to
+                    // `add(x, d) = p`): the row solves for `b` just as for a hint output.
+                    let out_is_backward = out_already_defined
+                        || hint_output_wids.contains(&out.0)
+                        || private_input_wids.contains(&out.0);
                     let out_is_creator = F::from_bool(!out_already_defined);
                     let b_is_creator =
                         F::from_bool(b_is_private_creator || out_is_backward && !b_already_defined);
